@@ -147,7 +147,9 @@ AppendVerdict(g, c, t, ttl, meta, hash, ok, id, f) ==
   ELSE (IF t \in NulTopics THEN {"C05"} ELSE {})
        \cup (IF t # XC /\ ~MayBeUsable(g, c) THEN {"C07"} ELSE {})
        \cup (IF t = XC /\ c # Z THEN {"C07"} ELSE {})
-       \cup (IF id <= g.lastApp \/ TsOf(id) # g.clock THEN {"C01"} ELSE {})
+       \* (C02: an append that completes after another one got the larger id - the stream grows at its end)
+       \cup (IF id <= g.lastApp THEN {"C01", "C02"} ELSE {})
+       \cup (IF TsOf(id) # g.clock THEN {"C01"} ELSE {})
        \cup (IF id \in DOMAIN g.acc THEN {"C01"} ELSE {})
        \cup (IF f # [topic |-> t, ctx |-> c, ttl |-> IF t = XC THEN Forever ELSE ttl,
                      meta |-> meta, hash |-> hash]
